@@ -44,7 +44,7 @@ def op_name(g, ei):
 def step_line(g, ei, kind):
     _, _, name, args = g.edges[ei]
     name = op_name(g, ei)
-    if name in ("Assign", "Add", "Sub", "Mul", "Div", "Concat", "AddF", "SubF", "MulF", "DivF", "AddAbsorbed"):
+    if name in ("Assign", "Add", "Sub", "Mul", "Div", "Concat", "AddF", "SubF", "MulF", "DivF", "AssignF", "AddAbsorbed"):
         return "S op=%s v=%s" % (name, enc(kind, args[0]))
     if name == "Apply":
         return "S op=Apply f=%s" % args[0]
